@@ -553,7 +553,8 @@ static void pair_all(const char* name)
     X(17, double, f32)                 \
     X(18, i32, u32)                    \
     X(19, long, int)                   \
-    X(20, unsigned long, long)
+    X(20, unsigned long, long)         \
+    X(21, TrkN, TrkN)
 
 int main(int argc, char** argv)
 {
